@@ -17,7 +17,7 @@ import mpsx
 from c05_fock import occupation_map, label_occ, dense_entries
 
 FAMS = [('SpinlessFermions', 'Z2', 'all'), ('SpinlessFermions', 'U1', 'all'), ('SpinfulFermions', 'Z2', 'all'), ('SpinfulFermions', 'U1', 'all'),
-        ('SpinfulFermions', 'U1xU1', 'species'), ('SpinfulFermions', 'U1xU1xZ2', 'all'), ('Spin12', 'Z2', 'none'), ('Spin12', 'U1', 'none')]
+        ('SpinfulFermions', 'U1xU1', 'species'), ('SpinfulFermions', 'U1xU1xZ2', 'all'), ('Spin12', 'Z2', 'none'), ('Spin12', 'U1', 'none'), ('Spin12', 'dense', 'none')]
 AMPS = [[1, 0], [-1, 0], [2, 0], [0, 1], [0, -1], [-2, 0]]
 
 
@@ -133,8 +133,44 @@ def job(args):
         kv = fock_vector(ket, locc, nm)
         if len(kv) == 0 or len(kv) > 70:
             continue
-        which = rng.choice(('1site', '2site', '2site', '2site_str', 'nsite', 'nsite'))
-        if which == '1site':
+        which = rng.choice(('1site', '1site_forms', '2site', '2site', '2site_str', 'nsite', 'nsite', 'sample') if nm == 1 else ('1site', '1site_forms', '2site', '2site', '2site_str', 'nsite', 'nsite'))
+        if which == 'sample':
+            # Born probabilities of drawn configurations: occupation basis in every symmetry, x / y bases (complex local vectors) in the dense configuration
+            bases = ['z'] + (['x', 'y', 'y'] if not nsym else [])
+            bs = [rng.choice(bases) for _ in range(N)] if rng.random() < 0.5 else [rng.choice(bases)] * N
+            UV = {'z': ([1, 0], [0, 1]), 'x': ([1, 1], [1, -1]), 'y': ([1, 1j], [1, -1j])}
+            m = 1 if all(b == 'z' for b in bs) else 2
+            if m == 2:
+                bs = [b if b != 'z' else 'x' for b in bs]          # one normalisation for all sites keeps the logged numerator an integer
+
+            def local_vec(b, j):
+                u = UV[b][j]        # (component on the empty state, component on the occupied state)
+                if nsym:
+                    return ops.vec_n(j) if fam[0] == 'SpinlessFermions' else ops.vec_z(+1 if j == 1 else -1)
+                leg = ops.space()
+                v = yastn.Tensor(config=ops.config, s=(1,), dtype='complex128')
+                comp = [u[locc[((), i)][0]] for i in range(2)]
+                v.set_block(Ds=(2,), val=np.array(comp, dtype=complex) / np.sqrt(m))
+                return v
+            try:
+                if nsym and fam[0] != 'SpinlessFermions':
+                    # which vec_z is the occupied state is fixed by the number operator n = S+ S-
+                    vz = {j: next(v for v in (ops.vec_z(+1), ops.vec_z(-1)) if abs(yastn.vdot(v, numbers[0] @ v) - j) < 1e-12) for j in (0, 1)}
+                    proj = {n_: {0: vz[0], 1: vz[1]} for n_ in range(N)}
+                else:
+                    proj = {n_: {0: local_vec(bs[n_], 0), 1: local_vec(bs[n_], 1)} for n_ in range(N)}
+                smp, prob = mps.sample(ket, proj, number=6, return_probabilities=True)
+                den = sum(a[1][0] ** 2 + a[1][1] ** 2 for a in kv)
+                for cfgk, pk in zip(np.asarray(smp).tolist(), list(prob)):
+                    x = float(pk) * den * m ** N
+                    pn = int(round(x))
+                    evs.append(dict(base, op='sample', N=N, fmap=[], ket=kv, out='ok', bases=bs, cfg=[int(c) for c in cfgk], m=m,
+                                    u=[[[int(np.real(c)), int(np.imag(c))] for c in UV[bs[n_] if not nsym or True else 'z'][int(cfgk[n_])]] for n_ in range(N)],
+                                    pnum=pn, den=den, near=bool(abs(x - pn) <= 1e-8 * max(1.0, x))))
+            except YastnError as ex:
+                evs.append(dict(base, op='sample', N=N, fmap=[], ket=kv, out='YastnError: ' + str(ex)[:60], bases=bs, cfg=[], m=m, u=[], pnum=0, den=0, near=False))
+            continue
+        if which in ('1site', '1site_forms'):
             on, pos = [rng.choice(names)], [rng.randrange(N)]
         elif which in ('2site', '2site_str'):
             on, pos = [rng.choice(names), rng.choice(names)], [rng.randrange(N), rng.randrange(N)]
@@ -160,6 +196,22 @@ def job(args):
             if which == '1site':
                 v = mps.measure_1site(bra, O[0], ket, sites=pos[0])
                 evs.append(dict(e0, fn='measure_1site', ops=on, pos=pos, val=T._gint(v)))
+            elif which == '1site_forms':
+                # every way of asking for several sites: all sites, a list in any order, a dict {site: operator} whose keys come in any order (also descending)
+                form = rng.choice(('all', 'list', 'dict', 'dict'))
+                order = list(range(N))
+                rng.shuffle(order)
+                if rng.random() < 0.4:
+                    order = sorted(order, reverse=True)
+                order = order[:rng.randint(1, N)] if form != 'all' else list(range(N))
+                if form == 'all':
+                    res = mps.measure_1site(bra, O[0], ket)
+                elif form == 'list':
+                    res = mps.measure_1site(bra, O[0], ket, sites=order)
+                else:
+                    res = mps.measure_1site(bra, {j: O[0] for j in order}, ket)
+                for j in order:
+                    evs.append(dict(e0, fn='measure_1site[%s %s]' % (form, order), ops=on, pos=[j], val=T._gint(res[j])))
             elif which == '2site':
                 v = mps.measure_2site(bra, O[0], O[1], ket, bonds=(pos[0], pos[1]))
                 evs.append(dict(e0, fn='measure_2site', ops=on, pos=pos, val=T._gint(v)))
@@ -210,6 +262,9 @@ def main(tier, seed, replay=None):
             if e['op'] == 'generate':
                 sig = 'generate:%s:%s:fmap=%s' % (e['family'], [(tm['pos'], tm['ops']) for tm in e['terms']], e['fmap'])
                 rep.violation(sig, 'generate_mpo in %s N=%d f_map=%s terms=%s: %s' % (e['family'], e['N'], e['fmap'] or None, e['terms'], why[:500]), {'op': 'generate', 'event': {k: v for k, v in e.items() if k != 'ent'}})
+            elif e['op'] == 'sample':
+                rep.violation('sample:%s:%s' % (e['family'], e['bases']), 'sample in %s N=%d bases=%s configuration=%s: %s' % (e['family'], e['N'], e['bases'], e['cfg'], why[:400]),
+                              {'op': 'sample', 'event': {k: v for k, v in e.items() if k != 'ket'}})
             else:
                 sig = '%s:%s:%s:%s' % (e['fn'].split('[')[0], e['family'], e['ops'], e['pos'])
                 rep.violation(sig, '%s in %s N=%d ops=%s sites=%s: %s' % (e['fn'], e['family'], e['N'], e['ops'], e['pos'], why[:400]), {'op': 'measure', 'event': {k: v for k, v in e.items() if k not in ('bra', 'ket')}})
@@ -219,10 +274,10 @@ def main(tier, seed, replay=None):
     rep.cov['transitions'] += sum(x.generated for x in res)
     rep.cov['traces_validated_against_impl'] = len(evs)
     rep.cov['evaluations'] = len(evs)
-    rep.cov['distinct_nontrivial'] = sum(1 for e in evs if (e['op'] == 'generate' and e['ent']) or (e['op'] == 'measure' and any(e['val'])))
+    rep.cov['distinct_nontrivial'] = sum(1 for e in evs if (e['op'] == 'generate' and e['ent']) or (e['op'] == 'measure' and any(e['val'])) or (e['op'] == 'sample' and e['pnum']))
     by = {}
     for e in evs:
-        k = e['op'] if e['op'] == 'generate' else e['fn'].split('[')[0]
+        k = e['op'] if e['op'] in ('generate', 'sample') else e['fn'].split('[')[0]
         by[k] = by.get(k, 0) + 1
     rep.cov['parts'].update({'events_by_kind': by, 'generate_with_custom_f_map': sum(1 for e in evs if e['op'] == 'generate' and e['fmap']),
                              'measurements_with_bra_not_ket': sum(1 for e in evs if e['op'] == 'measure' and e['bra'] != e['ket'])})
